@@ -1505,6 +1505,57 @@ func connectRefusedCase(res *vkit.Result, c Case) {
 	res.Eval(vkit.JSON(c), true)
 }
 
+// redirectCase: the gun follows redirects (redirect: true) and the target redirects in a circle, or
+// to a new place every time, or to itself. Each request ends as one sample (whatever it carries)
+// and the run goes on to its end.
+func redirectCase(res *vkit.Result, c Case) {
+	tgt, err := vkit.NewHTTPTarget(false)
+	if err != nil {
+		res.Inconclusive(true, "target: %v", err)
+		return
+	}
+	defer tgt.Close()
+	var n atomic.Int64
+	tgt.Respond = func(rec *vkit.ReqRec, w http.ResponseWriter, r *http.Request) {
+		k := n.Add(1)
+		switch c.Variant {
+		case "circle":
+			if strings.HasPrefix(r.URL.Path, "/a") {
+				w.Header().Set("Location", "/b")
+			} else {
+				w.Header().Set("Location", "/a")
+			}
+		case "endless":
+			w.Header().Set("Location", fmt.Sprintf("/next/%d", k))
+		default: // to itself
+			w.Header().Set("Location", r.URL.Path)
+		}
+		w.WriteHeader([]int{301, 302, 307}[int(k)%3])
+	}
+	path := vkit.WriteMem([]byte("/a t\n/b t\n/a t\n"))
+	defer vkit.RemoveMem(path)
+	gun := map[string]any{"type": c.Gun, "target": tgt.Addr, "redirect": true}
+	samples, rr, err := runPool(poolConf(map[string]any{"type": "uri", "file": path, "passes": 2}, gun, c.Instances), 45*time.Second)
+	if err != nil {
+		res.Inconclusive(true, "pool rejected: %v", err)
+		return
+	}
+	if rr.Hang || rr.WaitHang {
+		res.Violate(key(c, "hang"), fmt.Sprintf("the run did not end within 45 s (6 requests, the target had answered %d redirects by then):\n%s", n.Load(), rr.Stacks), c)
+		return
+	}
+	if rr.Err != nil {
+		res.Violate(key(c, "run-aborted"), fmt.Sprintf("Engine.Run returned %v", rr.Err), c)
+		return
+	}
+	if len(samples) != 6 {
+		res.Violate(key(c, "sample-count"), fmt.Sprintf("6 requests, %d samples", len(samples)), c)
+	}
+	res.Count("http_samples", int64(len(samples)))
+	res.Count("redirects_served", n.Load())
+	res.Eval(vkit.JSON(c), true)
+}
+
 func runCase(res *vkit.Result, p *peer, c Case) {
 	defer func() {
 		if r := recover(); r != nil {
@@ -1516,6 +1567,8 @@ func runCase(res *vkit.Result, p *peer, c Case) {
 		http2Case(res, c)
 	case c.Behaviour == "closed-port":
 		closedPortCase(res, c)
+	case c.Behaviour == "redirects-followed":
+		redirectCase(res, c)
 	case c.Behaviour == "connect-refused":
 		connectRefusedCase(res, c)
 	case c.Behaviour == "named-target-comes-up-late":
@@ -1594,6 +1647,11 @@ func main() {
 		cases = append(cases, Case{Gun: g, Behaviour: "closed-port", Variant: "tls", Instances: 1, Trace: true})
 		cases = append(cases, Case{Gun: g, Behaviour: "named-target-comes-up-late", Instances: 32})
 		cases = append(cases, Case{Gun: g, Behaviour: "named-target-comes-up-late", Instances: 48})
+	}
+	for _, g := range []string{"http", "connect"} {
+		for _, v := range []string{"circle", "endless", "to-itself"} {
+			cases = append(cases, Case{Gun: g, Behaviour: "redirects-followed", Variant: v, Instances: 2})
+		}
 	}
 	for _, v := range []string{"complete", "body-never-completed", "body-until-close"} {
 		cases = append(cases, Case{Gun: "connect", Behaviour: "connect-refused", Variant: v, Instances: 2})
